@@ -271,12 +271,14 @@ impl MultiState {
             .map(|(d, width)| d.visual_line_count(.., width))
             .unwrap_or_default();
 
-        // Track the total number of zombie lines on the screen
-        self.zombie_lines_count = self.zombie_lines_count.saturating_add(line_count);
-
         // Make `DrawTarget` forget about the zombie lines so that they aren't cleared on next draw.
-        self.draw_target
+        let kept = self
+            .draw_target
             .adjust_last_line_count(LineAdjust::Keep(line_count));
+
+        // Track the total number of zombie lines on the screen (lines that did not fit the
+        // terminal height were never painted)
+        self.zombie_lines_count = self.zombie_lines_count.saturating_add(kept);
 
         self.remove_idx(index);
     }
@@ -374,9 +376,10 @@ impl MultiState {
         // The zombie lines were drawn for the last time, so make `DrawTarget` forget about them
         // so they aren't cleared on next draw, and track them as zombie lines on the screen.
         if !has_text {
-            self.zombie_lines_count = self.zombie_lines_count.saturating_add(adjust);
-            self.draw_target
+            let kept = self
+                .draw_target
                 .adjust_last_line_count(LineAdjust::Keep(adjust));
+            self.zombie_lines_count = self.zombie_lines_count.saturating_add(kept);
         }
 
         // The screen now shows exactly the current members.
